@@ -59,6 +59,9 @@ class Sender(object):
     def __len__(self):
         return 0 if self.name == 'S2' else 1      # S2 is a falsy object (an empty container is a legitimate sender)
 
+    def __call__(self, *a, **k):                   # senders may be callable objects (classes, functions, widgets with __call__)
+        return None
+
 
 # real event names behind the abstract events e1 / e2 (names that contain 'on_' beyond the prefix, an event that
 # is itself called 'on_close' next to 'close')
@@ -157,6 +160,7 @@ class World(object):
             _, tok, event, style, sf, last = op
             f, owner = self.cb(tok, event)
             kw = {}
+            self.n_conn_all = getattr(self, 'n_conn_all', 0) + 1
             if style == 'explicit':
                 kw['event'] = self.real[event]
             if sf:
@@ -165,6 +169,8 @@ class World(object):
                 kw['sender'] = self.S[sf] if self.n_conn % 2 else Sender(sf)
             if last:
                 kw['last'] = True
+            elif self.n_conn_all % 3 == 1:
+                kw['last'] = [False, 0][self.n_conn_all % 2]        # the flag spelled out although it is off
             if style == 'decorator':
                 r = call(lambda: self.f['connect'](**kw)(f))
             else:
@@ -313,6 +319,10 @@ def run_shard(desc, ctx):
             idx += 1
             if idx % ns == sh:
                 run_case({'kind': 'progress', 'ops': [PROG_OPS[i] for i in seq]}, ctx)
+    for seq in itertools.product(range(len(PROG_OPS)), repeat=3):
+        idx += 1
+        if idx % ns == sh:
+            run_case({'kind': 'progress', 'ops': [PROG_OPS[i] for i in seq], 'clamp': True}, ctx)
     # longer progress histories: four value / maximum updates followed by any operation (completion, value below the
     # maximum, maximum lowered, ... need five steps)
     if desc['P'] < 5:
@@ -448,6 +458,14 @@ def _progress(case, ctx):
         log['progress'].append((value, value_max))
     ev.connect(on_complete, sender=pr)
     ev.connect(on_progress, sender=pr)
+    clamp = bool(case.get('clamp'))
+    if clamp:
+        # reentrancy: a progress callback that clamps an overshoot by updating the reporter from inside the dispatch;
+        # the crossing is still announced exactly once
+        def on_progress_clamp(sender, value, value_max, **kw):
+            if value > value_max:
+                pr.value = value_max
+        ev.connect(on_progress_clamp, event='progress', sender=pr)
     ref = Progress()
     n_after_completion_reset = False
     msg = None
@@ -470,17 +488,20 @@ def _progress(case, ctx):
             msg = '%s(%r) raised %r' % (op, arg, r.exc)
             break
         nprog = ref.op(op, arg)
+        if clamp and nprog and ref.value > ref.max:
+            ref.op('value', ref.max)          # the nested update made by the clamping callback
+            nprog = None
         if log['complete'] != ref.completes:
             msg = 'after %r: %d completions announced, expected %d' % (ops[:i + 1], log['complete'], ref.completes)
             break
-        if len(log['progress']) != nprog or (nprog and log['progress'][-1] != (ref.value, ref.max)):
+        if nprog is not None and (len(log['progress']) != nprog or (nprog and log['progress'][-1] != (ref.value, ref.max))):
             msg = 'after %r: progress events %r, expected %d x %r' % (ops[:i + 1], log['progress'], nprog,
                                                                       (ref.value, ref.max))
             break
         if (pr.value, pr.value_max) != (ref.value, ref.max):
             msg = 'value/value_max %r != %r' % ((pr.value, pr.value_max), (ref.value, ref.max))
             break
-    ctx.count(1, key=hkey('progress', repr(ops)), nontrivial=ref.completes >= 2 or n_after_completion_reset,
+    ctx.count(1, key=hkey('progress', repr(ops), clamp), nontrivial=ref.completes >= 2 or n_after_completion_reset,
               cell=('progress', 'len%d' % len(ops)))
     if ref.completes >= 2:
         ctx.sample({'progress_ops': ops}, every=2503)
